@@ -987,9 +987,6 @@ func (ro *RedisOutput) sendCmdsBatch(replayWait usync.WaitCloser, conn client.Re
 	updateCpTicker := time.NewTicker(cpTicker)
 	defer updateCpTicker.Stop()
 
-	cpInDbs := make(map[int]struct{})
-	cpDb := -1 // target db the connection is in, as designated by the last command sent (-1: initial db)
-
 	// transaction : call sendFunc when command is "exec", never break down a transaction
 	// non-transaction : call sendFunc when queue is full or ticker is delivered
 
@@ -1068,9 +1065,6 @@ func (ro *RedisOutput) sendCmdsBatch(replayWait usync.WaitCloser, conn client.Re
 		for _, ce := range cmdQueue {
 			batcher.Put(ce.Cmd, ce.Args...)
 			cmdCounter++
-			if ce.Cmd != "ping" {
-				cpDb = ce.Db
-			}
 			if ce.syncDelayNs > 0 {
 				if delayNs == 0 || delayNs > ce.syncDelayNs {
 					delayNs = ce.syncDelayNs
@@ -1081,11 +1075,10 @@ func (ro *RedisOutput) sendCmdsBatch(replayWait usync.WaitCloser, conn client.Re
 		if shouldUpdateCP {
 			if ro.cfg.EnableResumeFromBreakPoint {
 				// the checkpoint lands in the db the connection is in, also when the queue is
-				// empty (ticker flush after a SELECT was sent): that db needs run id and version too
-				if _, ok := cpInDbs[cpDb]; !ok {
-					cpInDbs[cpDb] = struct{}{}
-					batcher.Put("hset", checkpointKv.Key, checkpointKv.RunIdKey(), runId, checkpointKv.VersionKey(), config.Version)
-				}
+				// empty (ticker flush after a SELECT was sent): that db needs run id and version too.
+				// They travel with every position: the stale-checkpoint collector may have removed
+				// them from a database this run wrote into earlier
+				batcher.Put("hset", checkpointKv.Key, checkpointKv.RunIdKey(), runId, checkpointKv.VersionKey(), config.Version)
 				batcher.Put("hset", checkpointKv.Key, checkpointKv.OffsetKey(), lastOffset)
 			} else {
 				ro.cpGuard.Lock()
